@@ -69,6 +69,10 @@ func VerifH_C08_push_keeps_flags() {
 	def.HardLimits = vhNondetRes("dh")
 	def.SoftLimits = vhNondetRes("ds")
 	verifAssume(vhResBounded(def.HardLimits) && vhResBounded(def.SoftLimits))
+	// a time limit, if any, is far away: whether the pushed context runs out of
+	// time while the harness executes is not this harness's subject (and would
+	// make the native replay depend on real time)
+	verifAssume(def.HardLimits.Millis == 0 || def.HardLimits.Millis > 1000000)
 	before := t.requiredFlags
 	t.PushContext(def)
 	verifAssert(t.requiredFlags&before == before && t.requiredFlags&def.RequiredFlags == def.RequiredFlags, "child-requires-at-least-parents-flags")
